@@ -62,6 +62,19 @@ def main():
             subprocess.run(["git", "-C", "/repo", "worktree", "remove", "--force", wt], capture_output=True)
             shutil.rmtree(wt, ignore_errors=True)
     print("RESULT " + json.dumps(results))
+    sd = os.path.join(VERIF, "seeded", name)
+    if os.path.isdir(sd):
+        path = os.path.join(sd, "eval.json")
+        try:
+            with open(path) as f:
+                allres = json.load(f)
+        except Exception:
+            allres = {}
+        head = subprocess.run(["git", "-C", VERIF, "rev-parse", "--short", "HEAD"], capture_output=True, text=True).stdout.strip()
+        for prop, r in results["checks"].items():
+            allres[prop] = dict(r, tier=tier, verif_commit=head, command="VERIF_REPO=<scratch worktree with patch.diff applied> ./vcheck %s --tier %s" % (prop, tier))
+        with open(path, "w") as f:
+            json.dump(allres, f, indent=1)
     return 0
 
 
